@@ -1,8 +1,118 @@
-import TjdModel.Agg.Simplex
+/-
+  C18 — MGDA, PCGrad, CAGrad, GradDrop and Random satisfy their published definitions.
+
+  PROPERTY THEOREMS ONLY (statements fixed; helper lemmas in TjdLemmas/FWLemmas.lean, PCLemmas.lean).
+  Over an arbitrary linearly ordered field.  Random draws (projection orders, the uniform sample) are
+  explicit arguments: the theorems hold for EVERY draw.
+-/
+import Mathlib.Algebra.Order.Field.Basic
+import TjdModel.Agg.Spec2
+import TjdLemmas.FWLemmas
+import TjdLemmas.PCLemmas
 namespace Tjd.Props.C18
 open Tjd Tjd.Agg
 
-theorem oneHot_length {α : Type} [Zero α] [One α] (m i : Nat) : (oneHot m i : Vec α).length = m := by
-  simp [oneHot]
+variable {α : Type} [Field α] [LinearOrder α] [IsStrictOrderedRing α]
+
+/-! ### MGDA (Frank–Wolfe with exact line search) -/
+
+/-- the step size is always in `[0, 1]` -/
+theorem fwStep_gamma_range (G : Mat α) (m : Nat) (hG : SymmSquare G m) (hpsd : PosSemidef G m)
+    (a : Vec α) (ha : InSimplex a m) :
+    0 ≤ (fwStep G a).2.1 ∧ (fwStep G a).2.1 ≤ 1 := by
+  sorry
+
+/-- every iterate stays in the simplex: MGDA returns a convex combination of the rows -/
+theorem fwStep_simplex (G : Mat α) (m : Nat) (hm : 0 < m) (hG : SymmSquare G m)
+    (hpsd : PosSemidef G m) (a : Vec α) (ha : InSimplex a m) : InSimplex (fwStep G a).1 m := by
+  sorry
+
+/-- every iteration decreases `|Jᵀα|² = αᵀGα` (exact line search on the segment towards `e_t`) -/
+theorem fwStep_monotone (G : Mat α) (m : Nat) (hm : 0 < m) (hG : SymmSquare G m)
+    (hpsd : PosSemidef G m) (a : Vec α) (ha : InSimplex a m) : qf G (fwStep G a).1 ≤ qf G a := by
+  sorry
+
+/-- MGDA's weights: a convex combination, never longer than the mean (the starting point), for every
+    iteration budget and every `epsilon` -/
+theorem mgda_simplex_and_shorter_than_mean (G : Mat α) (m : Nat) (hm : 0 < m) (hG : SymmSquare G m)
+    (hpsd : PosSemidef G m) (epsilon : α) (K : Nat) :
+    InSimplex (mgdaWeights G m (1 / (m : α)) epsilon K).1 m ∧
+    qf G (mgdaWeights G m (1 / (m : α)) epsilon K).1 ≤ qf G (List.replicate m (1 / (m : α))) := by
+  sorry
+
+/-- two rows: after one iteration the result is the exact minimum-norm point of the segment, and
+    further iterations keep it optimal -/
+theorem mgda_two_rows_exact (G : Mat α) (hG : SymmSquare G 2) (hpsd : PosSemidef G 2) (epsilon : α)
+    (K : Nat) (hK : 1 ≤ K) (b : Vec α) (hb : InSimplex b 2) :
+    qf G (mgdaWeights G 2 (1 / 2) epsilon K).1 ≤ qf G b := by
+  sorry
+
+/-! ### PCGrad -/
+
+/-- REFINEMENT: the weights the code computes in Gramian space (double loop over `inner_products`)
+    combine to the sum over `i` of row `i` successively projected, in VECTOR space, off every other row it
+    conflicts with at that moment — for whatever projection orders are drawn.  In particular the test
+    for a later projection uses the already-projected vector, not the original row. -/
+theorem pcgrad_refines (J : Mat α) (m n : Nat) (hJ : MatWF J m n) (perms : List (List Nat))
+    (hp : ∀ p ∈ perms, ∀ j ∈ p, j < m) :
+    combine n J (pcgradWeights (gram J) perms).1 =
+      vsum n ((List.range m).map fun i => pcRow J i (perms.getD i [])) := by
+  sorry
+
+/-- when no two rows conflict, PCGrad is the plain sum of the rows -/
+theorem pcgrad_no_conflict_sum (J : Mat α) (m n : Nat) (hJ : MatWF J m n) (perms : List (List Nat))
+    (hp : ∀ p ∈ perms, ∀ j ∈ p, j < m)
+    (hnc : ∀ a b, a < m → b < m → 0 ≤ dot (J.getD a []) (J.getD b [])) :
+    (pcgradWeights (gram J) perms).1 = List.replicate m 1 := by
+  sorry
+
+/-! ### GradDrop -/
+
+/-- each coordinate is the sum of either the positive or the negative entries of the column plus the
+    leaked share of the others, according to the sign purity `P_c` versus the uniform sample `U_c` -/
+theorem graddrop_coordinate [Inhabited α] (J : Mat α) (m n : Nat) (hJ : MatWF J m n) (leak U : Vec α)
+    (c : Nat) (hc : c < n) :
+    let column := col J c
+    let s := column.sum
+    let a := (column.map absV).sum
+    let P := (1 + s / a) / (1 + 1)
+    (graddrop J leak U n).getD c 0 =
+      (column.zipIdx.map fun (xi : α × Nat) =>
+        let keep : α :=
+          if a = 0 then 0
+          else if U.getD c 0 < P then (if 0 < xi.1 then 1 else 0)
+          else if P < U.getD c 0 then (if xi.1 < 0 then 1 else 0)
+          else 0
+        (leak.getD xi.2 0 + (1 - leak.getD xi.2 0) * keep) * xi.1).sum := by
+  sorry
+
+/-! ### CAGrad (closed form given the dual optimum `w`; the conic programme is a kernel) -/
+
+/-- `A(J) = g_0 + (c |g_0| / |g_w|) g_w` in the non-stationary branch, the zero vector at
+    stationarity (`|g_w| < norm_eps`); in particular the mean for `c = 0` -/
+theorem cagrad_closed_form (J : Mat α) (m n : Nat) (hm : 0 < m) (hJ : MatWF J m n)
+    (c g0n gwn normEps : α) (w : Vec α) (hw : w.length = m) :
+    combine n J (cagradWeights m c g0n gwn normEps w) =
+      if normEps ≤ gwn then vadd (meanRow n J) (smul (c * g0n / gwn) (combine n J w))
+      else zeros n := by
+  sorry
+
+/-- hence `|A(J) - g_0|² = c² |g_0|²` whenever `g0n`, `gwn` are the norms of `g_0`, `g_w` up to the common
+    normalisation factor `s` -/
+theorem cagrad_distance (J : Mat α) (m n : Nat) (hm : 0 < m) (hJ : MatWF J m n)
+    (c g0n gwn normEps s : α) (w : Vec α) (hw : w.length = m) (hge : normEps ≤ gwn) (hgw : 0 < gwn)
+    (hs : 0 < s)
+    (h0 : dot (meanRow n J) (meanRow n J) = s * s * (g0n * g0n))
+    (h1 : dot (combine n J w) (combine n J w) = s * s * (gwn * gwn)) :
+    let d := vsub (combine n J (cagradWeights m c g0n gwn normEps w)) (meanRow n J)
+    dot d d = c * c * dot (meanRow n J) (meanRow n J) := by
+  sorry
+
+/-! ### Random -/
+
+/-- softmax of anything is a strictly positive convex combination -/
+theorem softmax_positive_sum_one (e : α → α) (he : ∀ x, 0 < e x) (xs : Vec α) (hx : xs ≠ []) :
+    (∀ w ∈ softmaxW e xs, 0 < w) ∧ (softmaxW e xs).sum = 1 ∧ (softmaxW e xs).length = xs.length := by
+  sorry
 
 end Tjd.Props.C18
